@@ -49,7 +49,9 @@ type runLevelOutcome struct {
 	Hops       []*result.TracerouteHop
 	Probe      int
 	SrcClose   int
+	PortFree   string // non-empty: the source port of the live run could be bound by someone else
 	WriteCalls int // WriteTo calls including faulted ones
+	ReadCalls  int
 	SnkClose   int
 	UseAfter   []string
 }
@@ -99,6 +101,20 @@ func runRunLevel(t *testing.T, c runLevelCase) runLevelOutcome {
 			wire.onWrite = func(p []byte, _ netip.AddrPort) {
 				out.Probe++
 				fl, kind, ttl := flowOfProbe(p)
+				if out.Probe == 1 && kind != "icmp" {
+					// the run is live: its source port is an identifier no concurrent run may be handed —
+					// the OS must still consider it taken
+					ap := netip.AddrPortFrom(fl.Local, fl.LPort).String()
+					if kind == "udp" {
+						if c, err := net.ListenPacket("udp", ap); err == nil {
+							c.Close()
+							out.PortFree = "udp " + ap
+						}
+					} else if l, err := net.Listen("tcp", ap); err == nil {
+						l.Close()
+						out.PortFree = "tcp " + ap
+					}
+				}
 				if c.Silent[ttl] {
 					return
 				}
@@ -187,6 +203,7 @@ func runRunLevel(t *testing.T, c runLevelCase) runLevelOutcome {
 			wire.mu.Unlock()
 			wire.log.mu.Lock()
 			out.WriteCalls = wire.log.counts["write"]
+			out.ReadCalls = wire.log.counts["read"]
 			wire.log.mu.Unlock()
 		}
 	})
@@ -269,6 +286,12 @@ func runLevelStream(t *testing.T, rep *hx.Report, rng *hx.RNG, n int) {
 		rep.Hit(fmt.Sprintf("run:%s:v6=%v", c.Proto, c.V6))
 		if c.FastReply {
 			rep.Hit("run:" + c.Proto + ":reply-during-write")
+		}
+		if o.PortFree != "" {
+			replay["port_free"] = o.PortFree
+			rep.Violate(hx.Violation{Kind: "spec", What: "the source port of a live run is not reserved: " + o.PortFree + " could be bound while the run was sending (a concurrent run can be handed the same port, and then the two runs' probes are indistinguishable)",
+				Sig: map[string]string{"stream": "run", "protocol": c.Proto, "defect": "source-port-not-reserved"}, Replay: replay})
+			continue
 		}
 		if o.Err != nil {
 			rep.Violate(hx.Violation{Kind: "spec", What: "run over the simulated path failed: " + o.Err.Error(), Sig: map[string]string{"stream": "run", "protocol": c.Proto}, Replay: replay})
